@@ -6,7 +6,6 @@ from numpy.random import random
 from scipy.integrate import simpson
 from scipy.optimize import minimize_scalar
 from scipy.special import erf
-from inference.pdf.hdi import sample_hdi
 from inference.pdf.base import DensityEstimator
 
 
@@ -218,15 +217,20 @@ class GaussianKDE(DensityEstimator):
         return reduce(logaddexp, generator) - log(len(samples) * sqrt(2 * pi))
 
     def locate_mode(self):
-        # if there are enough samples, use the 20% HDI to bound the search for the mode
-        if self.sample.size > 50:
-            lwr, upr = sample_hdi(self.sample, 0.2)
-        else:  # else just use the entire range of the samples
-            lwr, upr = self.sample[0], self.sample[-1]
+        # The estimate can have several local maxima, and for skewed samples the highest
+        # one need not lie inside a highest-density interval of the sample, so first
+        # evaluate the estimate on a grid covering the whole sample which is fine enough
+        # to resolve every local maximum (5 points per bandwidth)
+        lwr, upr = self.sample[0], self.sample[-1]
+        N = max(int(5 * (upr - lwr) / self.h), 3)
+        x = linspace(lwr, upr, N)
+        i = self(x).argmax()
+        lwr, upr = x[max(i - 1, 0)], x[min(i + 1, N - 1)]
 
-        # search in terms of the offset from the lower bound: the optimiser's tolerance
-        # includes a term relative to the size of its argument, which would otherwise
-        # limit the accuracy of the mode for samples located far from zero
+        # then refine within the bracket around the highest grid point. Search in terms
+        # of the offset from the lower bound: the optimiser's tolerance includes a term
+        # relative to the size of its argument, which would otherwise limit the accuracy
+        # of the mode for samples located far from zero
         result = minimize_scalar(
             lambda dx: -self(lwr + dx),
             bounds=[0.0, upr - lwr],
